@@ -231,3 +231,55 @@ META["C02"] = dict(
     level_note="Trusts the reference parser and its reading of 'supported subset' (spelled out in assumptions). Inputs are sampled from the grammar and mutation kinds.",
     design_ref="DESIGN.md §5 C02",
 )
+
+PLANS["C05"] = dict(
+    level="exploration",
+    rule=("sequences of 2-12 requests on one connection against a catalogue application (echo handler reporting method, path, params, query, 14 probed headers, a per-request context entry set by a "
+          "fang, payload): mixed methods and routes, header sets of different sizes in random casing, bodies incl. NUL at chosen offsets and sizes 300..5000 around the 1 KiB buffer, context use, "
+          "Connection: close at a random position, malformed requests in the middle, plus a targeted generator aligning stale bytes of request k with request k+1; one segment per request. Two engines: "
+          "mem = the session loop re-expressed over the hooks on a scripted in-memory connection; tcp = the real Ohkami::howl in a child process with a lock-step blocking client. Oracles: response k "
+          "== response of the same request alone on a fresh connection == what the reference parser + application predict; every request carries a unique token in every field and no token may "
+          "appear in another request's response; nothing after Connection: close; mem and tcp agree byte for byte. distinct_nontrivial = distinct sequence shapes with a longer->shorter "
+          "transition, NUL body or context use."),
+    quick=[R("c05", "rel", 16_000), R("c05tcp", "rel", 1_600), R("c05", "miri", 16, shards=8, flags={"small": 1})],
+    thorough=[R("c05", "rel", 400_000), R("c05", "dbg", 60_000), R("c05", "asan", 60_000), R("c05tcp", "rel", 16_000), R("c05tcp", "tsan", 1_600), R("c05", "miri", 160, shards=16, flags={"small": 1})],
+    floors={"quick": {"evaluations": 80_000, "distinct": 5_000, "taint_tokens_checked": 300_000, "connection_close_seen": 2_000, "malformed_in_sequence": 2_000, "tcp_sequences_agreeing_with_mirror": 1_500,
+                      "echo_matches_reference": 30_000},
+            "thorough": {"evaluations": 2_000_000, "distinct": 50_000, "tcp_sequences_agreeing_with_mirror": 15_000}},
+    assumptions=["request heads stay below the 1 KiB buffer (a refused oversized head legitimately desynchronises any connection)", "malformed requests in the middle are small and body-less",
+                 "the mem engine runs a mirror of Session::manage; the tcp engine bounds the gap to the real loop", "Date headers are normalised"],
+)
+META["C05"] = dict(
+    engine="vh c05 + vh c05tcp",
+    technique="runtime monitoring: differential (same request alone) + reference + taint-token oracles over recorded per-request responses on an in-memory connection; cross-checked against the real server over loopback TCP in lock-step; ASan/Miri/TSan variants",
+    level_text=("Histories of requests are executed through the real read/handle/send code on one reused Request object and, separately, through the real howl/Session over a socket; every response is "
+                "compared with the fresh-connection response, with the reference prediction, and scanned for tokens of other requests."),
+    level_note="Trusts the reference parser, the echo model and the session mirror (bounded by the tcp comparison). Sequences are sampled.",
+    design_ref="DESIGN.md §5 C05",
+)
+
+PLANS["C06"] = dict(
+    level="exploration",
+    rule=("request sequences of 1-4 requests (as in C05, no malformed ones) and segmentations of their concatenated byte stream delivered through a scripted in-memory AsyncRead: head|body, body split "
+          "into random pieces, body byte by byte with interleaved Pending, first read = head + part of the body, bodies smaller and larger than the rest of the 1 KiB buffer, starting with 0x00 or "
+          "not, random cuts; plus the two known-bad classes (cut inside a head incl. exhaustive every-byte cuts of short heads; several requests / one-and-a-half requests per segment). Oracle: the "
+          "response sequence of the canonical delivery (one segment per request, itself checked by C02/C05) must be reproduced; taint tokens for cross-request attribution. A paced real-socket "
+          "sample (TCP_NODELAY, head and body pieces written separately) cross-checks the mirror; its disagreements are inconclusive by design. distinct_nontrivial = distinct (request shapes, "
+          "segmentation class)."),
+    quick=[R("c05", "rel", 30_000, flags={"mode": "c06"}), R("c05tcp", "rel", 320, flags={"mode": "c06"}), R("c05", "miri", 16, shards=8, flags={"mode": "c06", "small": 1})],
+    thorough=[R("c05", "rel", 1_000_000, flags={"mode": "c06"}), R("c05", "asan", 100_000, flags={"mode": "c06"}), R("c05", "dbg", 100_000, flags={"mode": "c06"}), R("c05tcp", "rel", 3_200, flags={"mode": "c06"}),
+              R("c05", "miri", 160, shards=16, flags={"mode": "c06", "small": 1})],
+    floors={"quick": {"evaluations": 30_000, "distinct": 10_000, "same-as-canonical:head|body": 2_000, "same-as-canonical:body-split": 2_000, "same-as-canonical:first-read-head+part-of-body": 2_000,
+                      "same-as-canonical:body-bytewise": 1_000, "class:head-split": 200, "class:coalesced": 200},
+            "thorough": {"evaluations": 1_000_000, "distinct": 100_000}},
+    assumptions=["unmonitored_classes: head-split and coalesced/straddling are attributed wholesale to the known findings C06-F1 / C06-F2 (no sensitivity to further breakage inside them)",
+                 "the in-memory engine runs the mirror of Session::manage, not the real loop"],
+)
+META["C06"] = dict(
+    engine="vh c05 --mode c06 (+ vh c05tcp --mode c06)",
+    technique="runtime monitoring: schedule-varying differential oracle (same byte stream under scripted segmentations vs canonical delivery) with taint tokens; paced real-socket sample as cross-check",
+    level_text=("The same bytes are delivered to the real reader under generated read schedules; the produced response sequences must coincide. Segment boundaries are chosen by the harness's AsyncRead, "
+                "so the schedule is controlled, recorded and replayable."),
+    level_note="Two input classes are known-bad and unmonitored (see known_findings.json). Trusts the canonical delivery as reference (checked by C02/C05).",
+    design_ref="DESIGN.md §5 C06",
+)
